@@ -10,7 +10,7 @@ import ast
 
 from ..cfg import cfg_of
 from ..model import AnalysisError, call_name, calls_in, dotted, norm, walk_no_nested
-from .. import rules
+from .. import normal, rules
 
 META = {
     "explanation": "Static dataflow/CFG rules on every Connection.send_data that writes to a non-blocking socket, on "
@@ -482,7 +482,7 @@ def check_block_send_info(ctx):
                     elif isinstance(t, ast.UnaryOp) and isinstance(t.op, ast.Not) and norm(t.operand) == param:
                         mapping[not val] = norm(v)
     ctx.require(set(mapping) == {True, False}, f"BlockSendInfo.resolve: cannot extract the result mapping ({mapping})")
-    rets = [n for n in rules.func_stmts(wait.node) if isinstance(n, ast.Return)]
+    rets = [n for n in rules.func_stmts(normal.normalised(ctx, wait)) if isinstance(n, ast.Return)]
     ctx.require(len(rets) == 1, "BlockSendInfo.wait: unknown shape")
     rv = rets[0].value
     ok_member = None
